@@ -123,18 +123,11 @@ def firstMismatch : List Item → List Item → String
         | _ => s!"{kindName o}/end"
   | i :: _, [] => s!"end/{kindName i}"
 
-/-- Alignment that tolerates non-discretionary differences (only used to locate the
-discretionaries when P1 already failed): any output disc not equal to the next input node is
-marked. -/
-def markDiscs : List Item → List Item → List Bool
-  | _, [] => []
-  | inp, o :: out =>
-    match inp with
-    | i :: inp' =>
-      if o = i then false :: markDiscs inp' out
-      else if o.isDisc then true :: markDiscs inp out
-      else false :: markDiscs inp' out
-    | [] => o.isDisc :: markDiscs [] out
+/-- Only used to locate the discretionaries when P1 already failed (no alignment exists): a
+discretionary with a non-empty pre-break is taken as inserted (the text preprocessor only
+makes empty ones). -/
+def markDiscs (out : List Item) : List Bool :=
+  out.map (fun o => match o with | .disc pre _ _ => !pre.isEmpty | _ => false)
 
 def insertSorted (x : Nat) : List Nat → List Nat
   | [] => [x]
@@ -167,7 +160,7 @@ def handle (line : String) : String :=
             let sw := specWords inp
             let fwPre := findWordsPrefix inp
             let al := align inp out
-            let marks := al.getD (markDiscs inp out)
+            let marks := al.getD (markDiscs out)
             let p1 := al.isSome && P1 marks out inp
             let p2 := P2 marks out
             let dps := discPositions marks out 0
